@@ -11,7 +11,7 @@ import (
 func init() {
 	Register(&PropDef{
 		ID: "C09", QuickRuns: 4800, Level: "exploration",
-		Rule: "one run = 2-8 sessions on the BESS datapath (per-QFI burst configuration drawn: committed / peak / excess burst minima and burst duration, default entry present or not; the UP4 side - gate -> drop action, QFI, traffic class per QFI - is judged by the C04 image oracle) with 0-4 QERs whose rates are drawn over the 40-bit range with boundary bias (0, 1, 7, 8, 2^40-1, GBR <= MBR), both gate bits, QFIs 0..63, and QER lists per PDR drawn to hit the shapes that matter (same list in other orders, GBR only, a common QER missing from one PDR, single QER); then modifications that create or update QERs. Oracle at the simulated datapath: gate closed -> drop gate; otherwise peak rate = MBR x 125 and (BESS) committed rate = max(GBR x 125, 1), both rates zero -> unmetered; burst sizes >= rate x duration and >= the configured minimum; the QER found in the session-wide table is referenced by every PDR of the session and its parameters are that QER's, also after later messages. Non-trivial = at least one session with two or more QERs accepted; distinct = different sequence of (QER shape, list shape, outcome).",
+		Rule: "one run = 2-8 sessions on the BESS datapath (one run in six instead plays sessions with one QER, with or without rates, on the P4Runtime datapath before and after kill -9 / restart of the agent, judged by the C04 image oracle incl. the application meter rate per direction; per-QFI burst configuration drawn: committed / peak / excess burst minima and burst duration, default entry present or not; the UP4 side - gate -> drop action, QFI, traffic class per QFI - is judged by the C04 image oracle) with 0-4 QERs whose rates are drawn over the 40-bit range with boundary bias (0, 1, 7, 8, 2^40-1, GBR <= MBR), both gate bits, QFIs 0..63, and QER lists per PDR drawn to hit the shapes that matter (same list in other orders, GBR only, a common QER missing from one PDR, single QER); then modifications that create or update QERs. Oracle at the simulated datapath: gate closed -> drop gate; otherwise peak rate = MBR x 125 and (BESS) committed rate = max(GBR x 125, 1), both rates zero -> unmetered; burst sizes >= rate x duration and >= the configured minimum; the QER found in the session-wide table is referenced by every PDR of the session and its parameters are that QER's, also after later messages. Non-trivial = at least one session with two or more QERs accepted; distinct = different sequence of (QER shape, list shape, outcome).",
 		Assume: []string{"which QER sits in the session-wide table is recognised by its absence from the application table", "x125 = kbit/s to byte/s, from the property statement"},
 		Real: CommonReal, Simulated: CommonSim,
 		Scenario: scenarioC09,
@@ -50,6 +50,10 @@ func maxU(a, b uint64) uint64 {
 }
 
 func scenarioC09(r *Run) {
+	if r.Ch.Choose(6, "datapath") == 1 {
+		scenarioC09UP4(r)
+		return
+	}
 	r.FirstOnly = true
 	r.Conf = DefaultBESSConf()
 	// per-QFI burst configuration
@@ -249,4 +253,70 @@ func describeQERs(s *CPSession) string {
 		out += fmt.Sprintf(" pdr%d:%v", p.ID, p.QERIDs)
 	}
 	return out
+}
+
+
+// scenarioC09UP4: QoS as signalled on the P4Runtime datapath, with the C04 image
+// oracle (gate -> drop action, QFI, traffic class, application meter rate per
+// direction): sessions with one QER, with or without rates, before and after a
+// kill -9 / restart of the agent against the populated switch, whose meter
+// cells the new incarnation hands out again.
+func scenarioC09UP4(r *Run) {
+	r.FirstOnly = true
+	o := r.DrawUP4Conf()
+	r.DrawStrategy()
+	r.Sim.StepCost = 0
+	cells := int64(12 + 4*r.Ch.Choose(4, "arrays"))
+	for _, n := range []string{mApp, mSess} {
+		r.W.P4.Resize(n, cells)
+	}
+	p := r.AddPeer()
+	r.StartAgent()
+	if !r.WaitUP4Ready() || p.AssociateRetry() == nil {
+		r.CheckNoPanics("C09")
+		return
+	}
+	g := NewGen(r)
+	g.PlainQER = true
+	g.UP4 = true
+	g.Rateless = true
+	for _, k := range KnownTriggers {
+		g.Avoid[k] = true
+	}
+	r.Skel("up4")
+	attach := func(n int) bool {
+		for i := 0; i < n && r.AgentAlive() && r.Hard() == 0; i++ {
+			s := g.Session(p, SessShape{NQER: 1, TEIDChoose: r.Ch.Choose(2, "choose") == 1})
+			q := s.QERs[0]
+			if q.HasMBR {
+				q.MBRUL, q.MBRDL = uint64(1+r.Ch.Choose(1<<22, "mbr-ul")), uint64(1+r.Ch.Choose(1<<22, "mbr-dl"))
+			}
+			res := p.Establish(s)
+			r.Op("establish cp=%d QER{gateUL=%d gateDL=%d qfi=%d mbr=%v %d/%d kbit/s} -> accepted=%v", s.CPSEID, q.GateUL, q.GateDL, q.QFI, q.HasMBR, q.MBRUL, q.MBRDL, res.Accepted)
+			if !res.Accepted {
+				return false
+			}
+			r.Accepted++
+			r.CheckUP4Image("C09", fmt.Sprintf("after establishment of cp=%d", s.CPSEID), "est:up4", o)
+		}
+		return true
+	}
+	if !attach(2 + r.Ch.Choose(3, "before")) {
+		r.CheckNoPanics("C09")
+		return
+	}
+	if r.Ch.Choose(3, "restart") != 0 && r.Hard() == 0 {
+		r.KillAgent()
+		p.Sessions = map[uint64]*CPSession{}
+		p.Associated = false
+		r.Sim.RunFor(time.Second)
+		r.StartAgent()
+		r.Skel("restart")
+		if !r.WaitUP4Ready() || p.AssociateRetry() == nil {
+			r.CheckNoPanics("C09")
+			return
+		}
+		attach(2 + r.Ch.Choose(4, "after"))
+	}
+	r.CheckNoPanics("C09")
 }
